@@ -109,6 +109,11 @@ impl World {
             if !owner.is_wildcard() || !qname.strictly_below(&owner.parent()) {
                 continue;
             }
+            // occluded wildcards below a cut are not zone data (the real signer signs them
+            // anyway, but no correctly signed zone offers such an RRSIG)
+            if self.rz.cut_on_path(owner).is_some() {
+                continue;
+            }
             for t in types.keys() {
                 if *t == qtype || (*t == rz::T_CNAME && qtype != rz::T_CNAME) {
                     v.push(Claim::Wildcard { source: owner.clone(), rtype: *t });
@@ -329,7 +334,20 @@ fn run_claim(
     let hq = vzone::hname(qname_s);
     let query = Query::new(hq.clone(), RecordType::from(qtype));
     let zones = [world.rz.clone()];
-    let tr = dn::truth(&zones, &qname, qtype, claim);
+    let mut tr = dn::truth(&zones, &qname, qtype, claim);
+    // Under opt-out the RFC 5155 8.6 proof for "no DS" asserts only that no SIGNED delegation
+    // exists at the name (it cannot tell an insecure delegation from a non-existent name, and
+    // the property statement allows opt-out to carry the verdict exactly for DS): the claim
+    // "no DS RRset at qname" is then false only if the zone publishes a DS RRset there.
+    let (_, _, opt_out) = params(&world.signing);
+    if opt_out && qtype == rz::T_DS && matches!(claim, Claim::NoData) {
+        if let Err(why) = tr {
+            if why != "has-type" && why != "out-of-zone" {
+                tr = Ok(());
+                l.outcome("truth:optout-no-ds-relaxed");
+            }
+        }
+    }
     let answers = world.expanded_answer(claim, &hq, true);
     let rcode = rcode_of(claim);
     let n = world.recs.len();
@@ -430,7 +448,8 @@ fn run_claim(
 // ------------------------------------------------------------------------------------------
 // chain
 
-fn check_chain(world: &World, l: &mut Local) {
+/// Returns false if the real chain is not the chain RFC 5155 7.1 prescribes for the zone.
+fn check_chain(world: &World, l: &mut Local) -> bool {
     let (salt, iterations, opt_out) = params(&world.signing);
     let strip = |t: &BTreeSet<u16>| -> BTreeSet<u16> { t.iter().copied().filter(|x| *x != rz::T_RRSIG).collect() };
     let want = dn::nsec3_chain(&world.rz, &salt, iterations, opt_out);
@@ -440,7 +459,7 @@ fn check_chain(world: &World, l: &mut Local) {
         && want.iter().zip(got.iter()).all(|(w, g)| w.hash == g.hash && w.next == g.next && strip(&w.types) == strip(&g.types) && w.opt_out == g.opt_out && w.salt == g.salt && w.iterations == g.iterations);
     if same {
         l.outcome("chain:as-rfc5155");
-        return;
+        return true;
     }
     let wo: BTreeSet<&Vec<u8>> = want.iter().map(|r| &r.hash).collect();
     let go: BTreeSet<&Vec<u8>> = got.iter().map(|r| &r.hash).collect();
@@ -484,6 +503,7 @@ fn check_chain(world: &World, l: &mut Local) {
                "expected": want.iter().map(|r| format!("{} -> {} {:?}", dn::base32hex(&r.hash), dn::base32hex(&r.next), r.types)).collect::<Vec<_>>(),
                "got": got.iter().map(|r| format!("{} -> {} {:?}", dn::base32hex(&r.hash), dn::base32hex(&r.next), r.types)).collect::<Vec<_>>()})
     });
+    false
 }
 
 // ------------------------------------------------------------------------------------------
@@ -529,9 +549,11 @@ fn completeness(world: &World, rt: &tokio::runtime::Runtime, l: &mut Local, only
             };
             let s = rz::step(zone, &name, t);
             let (_, _, opt_out) = params(&world.signing);
-            if opt_out && matches!(s, Step::NoData(NoDataKind::Ent)) && zone.nodes.keys().filter(|k| k.strictly_below(&name)).all(|k| zone.cut_on_path(k).map(|c| !zone.has(&c, rz::T_DS)).unwrap_or(false)) {
-                // an empty non-terminal that exists only because of opted-out insecure delegations has
-                // no NSEC3 at all; RFC 5155 (erratum 3441) has no NODATA proof for it: not judged
+            let ce = zone.closest_encloser_or_self(&name);
+            if opt_out && ce.strictly_below(&zone.origin) && !world.recs.iter().any(|r| r.2.hash == world.hash(&ce)) && !matches!(s, Step::Referral { .. }) {
+                // the name (or its closest encloser) is an empty non-terminal that exists only because
+                // of opted-out insecure delegations: it has no NSEC3, and RFC 5155 (erratum 3441) has no
+                // NODATA / name-error proof that is consistent with the zone's content: not judged
                 l.outcome("completeness:skipped-optout-only-ent");
                 table.insert((vzone::hname(qn), RecordType::from(t)), m);
                 continue;
@@ -600,6 +622,12 @@ fn completeness(world: &World, rt: &tokio::runtime::Runtime, l: &mut Local, only
             _ => Claim::NoData,
         };
         let valid = dn::nsec3_proves_with(&attached_refs, &world.apex, &name, t, &claim, &|_| false, &hasher);
+        if valid == Proof3::OptOut && matches!(e, E2e::NsecRejected(Proof::Insecure)) {
+            // the server's proof is the RFC 5155 proof, but its next-closer cover has the Opt-Out flag:
+            // by the soundness clause it may not be Secure; "accepted" then means "valid, insecure"
+            l.outcome(&format!("complete-as-insecure:optout-cover:{class}"));
+            continue;
+        }
         let has_soa = m.authorities.iter().any(|r| r.record_type() == RecordType::SOA);
         let star = name.0.iter().any(|l| l.as_slice() == b"*");
         let depth = name.num_labels() - zone.closest_encloser_or_self(&name).num_labels();
@@ -743,7 +771,12 @@ fn iteration_limits(spec: &ZoneSpec, rt: &tokio::runtime::Runtime, l: &mut Local
 // ------------------------------------------------------------------------------------------
 
 fn run_world(world: &World, rt: &tokio::runtime::Runtime, l: &mut Local, cnt: &Counters, sample: bool) {
-    check_chain(world, l);
+    if !check_chain(world, l) {
+        // the published records do not describe the zone (a signer defect, reported above): what
+        // they "prove" cannot be judged against the zone's content
+        l.outcome("skipped:defective-chain");
+        return;
+    }
     let masks = world.masks();
     if world.recs.len() > 7 {
         l.outcome("subsets-capped-at-size-3");
@@ -771,14 +804,19 @@ fn run_world(world: &World, rt: &tokio::runtime::Runtime, l: &mut Local, cnt: &C
     }
 }
 
-fn signings_for(spec: &ZoneSpec) -> Vec<Signing> {
-    let mut v = vec![
-        Signing::Nsec3 { iterations: 0, salt: vec![], opt_out: false },
-        Signing::Nsec3 { iterations: 1, salt: vec![0xab], opt_out: false },
-    ];
-    if spec.owners.iter().any(|(_, k)| matches!(k, Kind::Ns | Kind::NsGlue)) {
-        v.push(Signing::Nsec3 { iterations: 0, salt: vec![], opt_out: true });
+/// quick: (0,-) without opt-out for every zone, (1,ab) with opt-out for zones with an insecure
+/// delegation; thorough: both parameter sets, each with and (where applicable) without opt-out.
+fn signings_for(spec: &ZoneSpec, thorough: bool) -> Vec<Signing> {
+    let insecure = spec.owners.iter().any(|(_, k)| matches!(k, Kind::Ns | Kind::NsGlue));
+    let mut v = vec![Signing::Nsec3 { iterations: 0, salt: vec![], opt_out: false }];
+    if thorough {
+        v.push(Signing::Nsec3 { iterations: 1, salt: vec![0xab], opt_out: false });
+    }
+    if insecure {
         v.push(Signing::Nsec3 { iterations: 1, salt: vec![0xab], opt_out: true });
+        if thorough {
+            v.push(Signing::Nsec3 { iterations: 0, salt: vec![], opt_out: true });
+        }
     }
     v
 }
@@ -811,7 +849,9 @@ fn main() {
                 let signing = Signing::from_tag(case["signing"].as_str().unwrap_or("nsec3:i0:s-:noopt")).unwrap_or_else(|| vcore::machinery_exit("bad signing tag"));
                 let world = build_world(&spec, &signing).unwrap_or_else(|e| vcore::machinery_exit(&e));
                 match level {
-                    Some("chain") => check_chain(&world, l),
+                    Some("chain") => {
+                        check_chain(&world, l);
+                    }
                     Some("completeness") => {
                         let q = case["qname"].as_str().unwrap_or("z.").to_string();
                         completeness(&world, &rt, l, Some((&q, case["qtype"].as_u64().unwrap_or(1) as u16)));
@@ -831,8 +871,8 @@ fn main() {
 
     ctx.set_rule(
         "every zone of the universe (apex + <=K owners of U(d), labels {a,b,*}; kinds A, TXT, A+TXT, CNAME->{a.z.,a.a.z.}, NS, NS+glue, NS+DS; quick d=2,K<=2; \
-         thorough adds d=2,K=3 and d=3,K<=2 over 6 kinds) signed by the real nsec3_zone with (iterations,salt) in {(0,-),(1,ab)}, opt-out off and (zones with an \
-         insecure delegation) on; x every qname of {apex, U(3), x.o., names below cuts} x qtype {A,TXT,DS,NS,CNAME} x claim {NXDOMAIN, NODATA, expansion of each \
+         thorough adds d=2,K=3 and d=3,K<=2 over 6 kinds) signed by the real nsec3_zone: quick (0,-) without opt-out and, for zones with an insecure delegation, (1,ab) with opt-out; \
+         thorough both parameter sets with and without opt-out; x every qname of {apex, U(3), x.o., names below cuts} x qtype {A,TXT,DS,NS,CNAME} x claim {NXDOMAIN, NODATA, expansion of each \
          published wildcard RRset} x soa {apex, absent} x EVERY non-empty subset of the zone's NSEC3 records (>7 records: subsets of size <=3) -> verify_nsec3; \
          oracle: Secure => claim true in the zone (vref::denial::truth) and the subset is the RFC 5155 section 8 proof with opt-out only for DS (nsec3_proves). \
          Plus parameter mixtures / wrong-zone owners (never Secure), iterations 0..3 x limits {(1,2),(0,0),(2,2)}, completeness of every negative/wildcard DO=1 \
@@ -851,7 +891,7 @@ fn main() {
     }
     let mut jobs: Vec<(usize, Signing)> = vec![];
     for (i, s) in specs.iter().enumerate() {
-        for sg in signings_for(s) {
+        for sg in signings_for(s, thorough) {
             jobs.push((i, sg));
         }
     }
